@@ -37,7 +37,8 @@ fn cc_ops() -> BoxedStrategy<MidiOp> {
     let val = prop_oneof![4 => 0u8..=127, 1 => proptest::sample::select(vec![0u8, 1, 63, 64, 65, 126, 127])];
     prop_oneof![
         5 => (ctrl, val, any::<bool>()).prop_map(|(c, v, rs)| MidiOp::Chan { kind: 3, own: true, other: 0, d1: c, d2: v, rs }),
-        2 => (0u8..=127, 0u8..=127, any::<bool>()).prop_map(|(l, m, rs)| MidiOp::Chan { kind: 6, own: true, other: 0, d1: l, d2: m, rs }),
+        2 => (prop_oneof![2 => (0u8..=127, 0u8..=127), 1 => proptest::sample::select(vec![(0u8, 0u8), (127, 127), (0, 64), (1, 64), (127, 63), (0, 127), (127, 0)])], any::<bool>())
+            .prop_map(|((l, m), rs)| MidiOp::Chan { kind: 6, own: true, other: 0, d1: l, d2: m, rs }),
     ]
     .boxed()
 }
@@ -292,7 +293,15 @@ pub fn replay(property: &str, engine: &str, case: &Value) -> Result<(), Failure>
             let g = |k: &str| case[k].as_u64().unwrap_or(0) as u8;
             c18_cell(g("listen"), g("msg_ch"), g("cc"), g("val"), g("prior"))
         }
-        "midi_c18_bend" => c18_bend(case["listen"].as_u64().unwrap_or(0) as u8).map(|_| ()),
+        "midi_c18_bend" => {
+            let l = case["listen"].as_u64().unwrap_or(0) as u8;
+            if case.get("reset_state").is_some() {
+                c18_reset_states(l).map(|_| ())
+            } else {
+                c18_bend(l).map(|_| ())?;
+                c18_scaling(l)
+            }
+        }
         _ => Err(Failure::new("replay_unknown_engine", 0, engine.to_string())),
     }
 }
@@ -338,7 +347,7 @@ pub fn c06(quick: bool, seed: u64) -> Outcome {
 
 pub fn c18(quick: bool, seed: u64) -> Outcome {
     let mut o = Outcome::new(
-        "complete generator: 16 listened channels x 128 controller numbers x 128 values on the listened channel and on a foreign channel, each from a non-default prior state (every routed controller set, pitch bend moved, a note held; prior values vary with the cell; quick tier: 8 seed-chosen listened channels), 16 x 16384 pitch-bend values LSB first (quick: 8 channels) interleaved with foreign-channel bends, value-axis scaling of the five continuous controllers; oracle = controller map of the statement (value/127 bit-exact, switches value>=64, 121 restores the power-on getters, everything else changes nothing; every number except 123 leaves gate/note/velocity/edges alone). Plus proptest histories interleaving controllers, bend, notes and foreign traffic against the receiver model. non-trivial = every cell of the complete generator on the listened channel (distinct by construction) + distinct histories containing both controller/bend and note traffic",
+        "complete generator: 16 listened channels x 128 controller numbers x 128 values on the listened channel and on a foreign channel, each from a non-default prior state (every routed controller set, pitch bend moved, a note held; prior values vary with the cell; quick tier: 8 seed-chosen listened channels), 16 x 16384 pitch-bend values LSB first (quick: 8 channels) interleaved with foreign-channel bends, value-axis scaling of the five continuous controllers, controller reset (CC 121) from all 16384 boundary-valued states (each continuous controller in {0,1,64,127}, bend in {0,8192,16383,5000}, both switches); oracle = controller map of the statement (value/127 bit-exact, switches value>=64, 121 restores the power-on getters, everything else changes nothing; every number except 123 leaves gate/note/velocity/edges alone). Plus proptest histories interleaving controllers, bend, notes and foreign traffic against the receiver model. non-trivial = every cell of the complete generator on the listened channel (distinct by construction) + distinct histories containing both controller/bend and note traffic",
     );
     o.assumptions.push(MODEL_NOTE.into());
     let mut mix = Mix(seed ^ 0xC18);
@@ -377,6 +386,9 @@ pub fn c18(quick: bool, seed: u64) -> Outcome {
             let listen = chans[i as usize];
             let n = c18_bend(listen).map_err(|f| (f.data.clone(), f))?;
             c18_scaling(listen).map_err(|f| (f.data.clone(), f))?;
+            let k = c18_reset_states(listen).map_err(|f| (f.data.clone(), f))?;
+            st.count("reset_states", k);
+            st.count("sweep_evaluations", k);
             st.count("pitch_bend_values", n);
             st.count("sweep_evaluations", n + 5 * 128);
         }
